@@ -149,7 +149,7 @@ def _linear(e, syms: Dict[str, str]) -> Optional[Dict[str, int]]:
         for k, v in b.items():
             out[k] = out.get(k, 0) + (v if isinstance(e.op, ast.Add) else -v)
         return out
-    if isinstance(e, (ast.Subscript, ast.Name)) or (isinstance(e, ast.Call) and call_name(e) == "len"):
+    if isinstance(e, (ast.Subscript, ast.Name, ast.Attribute)) or (isinstance(e, ast.Call) and call_name(e) == "len"):
         return {norm(e): 1}
     return None
 
@@ -428,3 +428,192 @@ def check_goto_label_scan(model: RepoModel, rep, RID: str):
     if n_sites < 1:
         raise AnalysisError("control_flow: goto fix-up edge not found")
     rep.analysed["goto fix-up edges"] = n_sites
+
+
+# ---------------------------------------------------------------------------------------------------------------- P8
+def check_rule_line_offsets(model: RepoModel, rep, RID: str, min_sites: int = 6):
+    """taint/taint_analysis.py: a rule's `line_num` is the 1-based line an editor shows; the parser's rows are 0-based.  Every comparison
+    with rule.line_num must therefore be against `<0-based row> + 1`, where the stored offset of SFGNode.line_no (read from
+    SFGNode.__init__ in common_structs.py) is part of the sum."""
+    cs = model.module("common_structs.py")
+    sfg = cs.classes.get("SFGNode")
+    if sfg is None or "__init__" not in sfg.methods:
+        raise AnalysisError("SFGNode.__init__ vanished")
+    prod = None
+    for n in walk_no_nested(sfg.methods["__init__"].node):
+        if isinstance(n, ast.Assign) and any(isinstance(t, ast.Attribute) and t.attr == "line_no" and isinstance(t.value, ast.Name) and t.value.id == "self" for t in n.targets):
+            lin = _linear(n.value, {})
+            if lin is not None and any(k.endswith("start_row") for k in lin):
+                prod = (lin.get("1", 0), n.lineno)
+    if prod is None:
+        raise AnalysisError("SFGNode.__init__: `self.line_no = <stmt>.start_row (+k)` not found")
+    m = model.module("taint/taint_analysis.py")
+    n_sites = 0
+    for f in m.all_funcs():
+        for c in walk_no_nested(f.node):
+            if not (isinstance(c, ast.Compare) and len(c.ops) == 1 and isinstance(c.ops[0], (ast.Eq, ast.NotEq))):
+                continue
+            sides = [c.left, c.comparators[0]]
+            if not any(isinstance(s_, ast.Attribute) and s_.attr == "line_num" for s_ in sides):
+                continue
+            other = sides[1] if isinstance(sides[0], ast.Attribute) and sides[0].attr == "line_num" else sides[0]
+            while isinstance(other, ast.Call) and call_name(other) == "int" and other.args:
+                other = other.args[0]
+            lin = _linear(other, {})
+            if lin is None:
+                continue
+            rows = [k for k in lin if k.endswith("line_no") or k.endswith("start_row")]
+            if len(rows) != 1 or lin[rows[0]] != 1:
+                continue
+            n_sites += 1
+            total = lin.get("1", 0) + (prod[0] if rows[0].endswith("line_no") else 0)
+            key = f"{f.ref}::`{norm(c)}`"
+            if total == 1:
+                rep.holds(RID, key, m.rel, c.lineno, f"rule line == 0-based row + 1 ({'SFGNode.line_no stores start_row%+d' % prod[0] if rows[0].endswith('line_no') else 'row read directly'})")
+            else:
+                rep.violation(RID, key, m.rel, c.lineno,
+                              f"a rule's line_num (1-based) is compared with `{norm(other)}`, which is the 0-based row {total:+d}"
+                              f"{' (SFGNode.line_no = start_row%+d, common_structs.py:%d)' % prod if rows[0].endswith('line_no') else ''}: a rule restricted to a "
+                              f"line matches the statement on another line or none")
+    if n_sites < min_sites:
+        raise AnalysisError(f"rule line comparisons: only {n_sites} recognised (expected >= {min_sites})")
+    rep.analysed["comparisons with rule.line_num"] = n_sites
+
+
+# ---------------------------------------------------------------------------------------------------------------- P9
+def check_worklist_membership(model: RepoModel, rep, RID: str, rel: str = "taint/taint_analysis.py", min_sites: int = 1):
+    """A worklist with a membership set: what is added to the set is the element that is appended to the list (same expression), and what
+    is discarded after a pop is the popped element.  A coarser key makes different pending elements look queued already."""
+    m = model.module(rel)
+    n_sites = 0
+    for f in m.all_funcs():
+        stmts = list(walk_no_nested(f.node))
+        appends = [c for c in stmts if isinstance(c, ast.Call) and isinstance(c.func, ast.Attribute) and c.func.attr in ("append", "appendleft") and len(c.args) == 1
+                   and isinstance(c.func.value, ast.Name)]
+        adds = [c for c in stmts if isinstance(c, ast.Call) and isinstance(c.func, ast.Attribute) and c.func.attr == "add" and len(c.args) == 1
+                and isinstance(c.func.value, ast.Name)]
+        params = {a.arg for a in f.node.args.args}
+        for ap in appends:
+            for ad in adds:
+                L, S = ap.func.value.id, ad.func.value.id
+                if not ("worklist" in L and "worklist" in S and L != S):
+                    continue
+                n_sites += 1
+                key = f"{f.ref}::`{L}.append({norm(ap.args[0])})` / `{S}.add(...)`"
+                tests = [t for t in stmts if isinstance(t, ast.Compare) and len(t.ops) == 1 and isinstance(t.ops[0], (ast.In, ast.NotIn))
+                         and norm(t.comparators[0]) == S]
+                bad = []
+                if norm(ad.args[0]) != norm(ap.args[0]):
+                    bad.append(f"`{S}.add({norm(ad.args[0])})`")
+                bad += [f"`{norm(t)}`" for t in tests if norm(t.left) != norm(ap.args[0])]
+                if bad:
+                    rep.violation(RID, key, rel, ad.lineno,
+                                  f"the membership set of the worklist is keyed by something coarser than the queued element ({', '.join(bad)} vs "
+                                  f"`{L}.append({norm(ap.args[0])})`): two different pending elements with the same key count as one, the second "
+                                  f"is never processed and the flows through it are lost")
+                else:
+                    rep.holds(RID, key, rel, ad.lineno, "set and list hold the same elements")
+    if n_sites < min_sites:
+        raise AnalysisError(f"{rel}: worklist with a membership set not recognised")
+    rep.analysed["worklists with a membership set"] = n_sites
+
+
+# ---------------------------------------------------------------------------------------------------------------- P10
+def check_no_keyed_collapse(model: RepoModel, rep, RID: str, rels, min_sites: int = 0):
+    """`{x.attr: x for x in L}` keeps one element per attribute value.  In the rule applier the elements are rules that differ in other
+    fields (target, line, unit): collapsing them by one attribute removes rules, and with them flows that were reported before."""
+    n = 0
+    for rel in rels:
+        m = model.module(rel)
+        for f in m.all_funcs():
+            for d in walk_no_nested(f.node):
+                if not (isinstance(d, ast.DictComp) and len(d.generators) == 1 and isinstance(d.generators[0].target, ast.Name)):
+                    continue
+                v = d.generators[0].target.id
+                if not (isinstance(d.value, ast.Name) and d.value.id == v and isinstance(d.key, ast.Attribute) and isinstance(d.key.value, ast.Name) and d.key.value.id == v):
+                    continue
+                src = norm(d.generators[0].iter)
+                if "rule" not in src.lower():
+                    continue
+                n += 1
+                key = f"{f.ref}::`{norm(d)}`"
+                rep.violation(RID, key, rel, d.lineno,
+                              f"{f.ref} collapses `{src}` to one rule per `{d.key.attr}`: rules that share the {d.key.attr} but differ in target, line or "
+                              f"unit are dropped (the last one wins), so adding a rule can remove a previously reported flow")
+    rep.analysed["rule collections collapsed by one attribute"] = n
+    return n
+
+
+# ---------------------------------------------------------------------------------------------------------------- P7
+def check_helper_stores_copy(model: RepoModel, rep, RID: str, rel: str = "util/util.py", min_sites: int = 2):
+    """Container helpers `add_to_*` own what they store: a helper that updates `d[key]` in place (`.add` / `.update` / `.append`) never
+    stores a caller's collection object itself under the key (`d[key] = value`), otherwise the next update mutates the caller's set --
+    for the state merge that set is the field map of another object version."""
+    m = model.module(rel)
+    n = 0
+    for f in m.all_funcs():
+        if f.cls is not None:
+            continue
+        params = [a.arg for a in f.node.args.args]
+        if len(params) < 3:
+            continue
+        d = params[0]
+        inplace = [c for c in walk_no_nested(f.node) if isinstance(c, ast.Call) and isinstance(c.func, ast.Attribute) and c.func.attr in ("add", "update", "append", "extend")
+                   and isinstance(c.func.value, ast.Subscript) and isinstance(c.func.value.value, ast.Name) and c.func.value.value.id == d]
+        if not inplace:
+            continue
+        n += 1
+        key = f"{f.ref}::`{d}[...]` is owned by the helper"
+        bare = [s for s in walk_no_nested(f.node) if isinstance(s, ast.Assign) and any(isinstance(t, ast.Subscript) and isinstance(t.value, ast.Name) and t.value.id == d for t in s.targets)
+                and isinstance(s.value, ast.Name) and s.value.id in params[1:]]
+        if bare:
+            rep.violation(RID, key, rel, bare[0].lineno,
+                          f"{f.ref} stores the caller's object `{bare[0].value.id}` under the key and later updates `{d}[...]` in place "
+                          f"(`.{inplace[0].func.attr}`): the first contributor's collection grows with every later contribution (two versions of "
+                          f"an object end up sharing one field set)")
+        else:
+            rep.holds(RID, key, rel, f.node.lineno, f"every store under the key is a fresh collection; updates in place: {len(inplace)}")
+    if n < min_sites:
+        raise AnalysisError(f"{rel}: only {n} accumulating dict helpers recognised (expected >= {min_sites})")
+    rep.analysed["accumulating dict helpers"] = n
+
+
+# ---------------------------------------------------------------------------------------------------------------- P11
+def check_truthiness_after_numeric_conversion(model: RepoModel, rep, RID: str, rels, min_sites: int = 0):
+    """`v = int(x)` followed by `if v and ...` / `if not v`: the number 0 is a value, not an absence.  In the state computations operand
+    values are strings exactly so that a presence test is not a zero test."""
+    n = 0
+    for rel in rels:
+        m = model.module(rel)
+        for f in m.all_funcs():
+            conv = {}
+            for s in walk_no_nested(f.node):
+                if isinstance(s, ast.Assign) and len(s.targets) == 1 and isinstance(s.targets[0], ast.Name) and isinstance(s.value, ast.Call) \
+                        and call_name(s.value) in ("int", "float") and s.value.args:
+                    conv.setdefault(s.targets[0].id, s)
+            if not conv:
+                continue
+            for t in walk_no_nested(f.node):
+                tests = []
+                if isinstance(t, (ast.If, ast.While, ast.IfExp)):
+                    tests = [t.test]
+                for test in tests:
+                    operands = []
+                    stack = [test]
+                    while stack:
+                        e = stack.pop()
+                        if isinstance(e, ast.BoolOp):
+                            stack.extend(e.values)
+                        elif isinstance(e, ast.UnaryOp) and isinstance(e.op, ast.Not):
+                            stack.append(e.operand)
+                        elif isinstance(e, ast.Name):
+                            operands.append(e)
+                    for o in operands:
+                        if o.id in conv and conv[o.id].lineno < test.lineno:
+                            n += 1
+                            key = f"{f.ref}::truthiness of `{o.id}` after `{norm(conv[o.id])}`"
+                            rep.violation(RID, key, rel, test.lineno,
+                                          f"`{o.id}` is converted to a number (line {conv[o.id].lineno}) and then tested for presence in "
+                                          f"`{norm(test)[:80]}`: the value 0 counts as absent and the operand combination is discarded")
+    rep.analysed["presence tests on number-converted values"] = n
+    return n
